@@ -4,9 +4,10 @@
 //! Fault injection points, only compiled with the `verif-hooks` feature (off by default).
 //!
 //! A plan is read once from the environment variable `CLOCKBOUND_VERIF_FAILPOINT`, formatted as
-//! `<site>:<hit>:<action>` where `action` is `panic`, `return` or `stall<ms>`. On the `hit`-th time
-//! execution reaches `site`, the calling thread panics, or `hit()` returns true and the caller
-//! returns from its function, or the thread sleeps for `<ms>` milliseconds and then carries on.
+//! `<site>:<hit>:<action>` where `action` is `panic`, `return`, `stall<ms>` or `panicafter<ms>`. On
+//! the `hit`-th time execution reaches `site`, the calling thread panics, or `hit()` returns true
+//! and the caller returns from its function, or the thread sleeps for `<ms>` milliseconds and then
+//! carries on (`stall`) or panics (`panicafter`: a death at a given time rather than at a count).
 //! Without the variable every failpoint is inert.
 
 use std::collections::HashMap;
@@ -16,6 +17,7 @@ enum Action {
     Panic,
     Return,
     Stall(u64),
+    PanicAfter(u64),
 }
 
 struct Plan {
@@ -33,6 +35,9 @@ lazy_static::lazy_static! {
         let action = match parts.next()? {
             "panic" => Action::Panic,
             "return" => Action::Return,
+            after if after.starts_with("panicafter") => {
+                Action::PanicAfter(after.strip_prefix("panicafter")?.parse::<u64>().ok()?)
+            }
             stall => Action::Stall(stall.strip_prefix("stall")?.parse::<u64>().ok()?),
         };
         Some(Plan { site, hit, action })
@@ -73,6 +78,11 @@ pub fn hit(site: &'static str) -> bool {
         Action::Return => {
             eprintln!("VERIF-FAILPOINT fired {} return {}", site, monotonic_ns());
             true
+        }
+        Action::PanicAfter(ms) => {
+            std::thread::sleep(std::time::Duration::from_millis(ms));
+            eprintln!("VERIF-FAILPOINT fired {} panic {}", site, monotonic_ns());
+            panic!("verif failpoint {}", site);
         }
         Action::Stall(ms) => {
             eprintln!("VERIF-FAILPOINT stall {} {} ms {}", site, ms, monotonic_ns());
